@@ -84,6 +84,12 @@ def DS.shardChain (d : DS) : List (Int × Int × Int) → Except ErrKind DS
     let s ← d.shard i k off
     s.shardChain rest
 
+/-- All shards-of-shards at nesting depth `ks.length`, shard counts `ks` (outermost first), in
+lexicographic order of their index paths (offset 0). -/
+def DS.allShards (d : DS) : List Nat → List DS
+  | [] => [d]
+  | k :: ks => (List.range k).flatMap fun (i : Nat) => (d.shardCore (i : Int) (k : Int) 0).allShards ks
+
 /-! ## `ShardedIterable` / `DataIterator` (io.py:142-204) -/
 
 /-- `while cond(self._index): next(self._it); self._index += 1` on an iterator over `n` elements
